@@ -55,8 +55,8 @@ ExpectedRules(pp, pl) ==
 BindRun(rec) ==
   LET c == BaseOf(rec).cfg IN
   /\ rec.rules = ExpectedRules(rec.pplace, rec.eplace)
-  /\ \A r \in DOMAIN rec.checks :
-       rec.checks[r] = Strs(GetChecksForEntry(Load(c), EntryWith(rec.cmt, rec.prior, r = rec.rule), "lint"))
+  /\ \A i \in DOMAIN rec.crules :      \* check lists of the targeted rule and of one other rule
+       rec.checks[i] = Strs(GetChecksForEntry(Load(c), EntryWith(rec.cmt, rec.prior, rec.crules[i] = rec.rule), "lint"))
 
 TBase ==
   /\ ~judged /\ Rec.ev = "Base"
@@ -83,7 +83,7 @@ TRun ==
           IF got = exp THEN TRUE ELSE PrintT(<<"VIOL", Rec.id, ToJson(Describe(Rec, exp, got, "expired snooze alone"))>>)
   /\ IF BindRun(Rec) THEN TRUE
      ELSE PrintT(<<"DRIFT", Rec.id, ToJson([text |-> Rec.text, place |-> Rec.place, rule |-> Rec.rule, rules |-> Rec.rules,
-                      checks |-> IF Rec.rule > 0 /\ Rec.rule <= Len(Rec.checks) THEN Rec.checks[Rec.rule] ELSE <<>>])>>)
+                      crules |-> Rec.crules, checks |-> Rec.checks[1]])>>)
   /\ IF Rec.bin /\ Rec.proj # Rec.binproj
      THEN PrintT(<<"BINARY", Rec.id, ToJson([text |-> Rec.text, place |-> Rec.place])>>) ELSE TRUE
   /\ judged' = TRUE /\ UNCHANGED <<vars, l>>
